@@ -34,11 +34,14 @@ class Intervals:
         self.prog = prog
         self.f = f
         self.env: Dict[str, Optional[Interval]] = {}
+        self.flags: Dict[str, bool] = {}
         a = f.node.args
         params = a.args + a.kwonlyargs
         defaults = [None] * (len(a.args) - len(a.defaults)) + list(a.defaults) + list(a.kw_defaults)
         for p, d in zip(params, defaults):
-            self.env[p.arg] = self.ev(d) if d is not None else None
+            self.env[p.arg] = self.ev(d) if d is not None else ASSUMED_RANGES.get(p.arg)
+            if d is not None and isinstance(d, ast.Constant) and isinstance(d.value, bool):
+                self.flags[p.arg] = d.value
         self.walk(f.node.body)
 
     def walk(self, stmts):
@@ -132,6 +135,11 @@ class Intervals:
         return None
 
 
+# a required term-count parameter ranges from 2 up to the number of letters (beyond that no request for distinct
+# variables can be met whatever the code does)
+ASSUMED_RANGES = {"num_terms": (2, 26)}
+
+
 def exclude_size(f: FuncInfo, e: Optional[ast.expr], iv: Intervals) -> Optional[Interval]:
     if e is None:
         return (0, 0)
@@ -153,6 +161,14 @@ def run_pool(chk: Check, prog: Program) -> None:
              "parameters", minimum=5)
     mod = prog.module("problems")
     pool = const_fold(prog, mod, mod.assigns["variables"])
+    common_pool = const_fold(prog, mod, mod.assigns["common_variables"]) if "common_variables" in mod.assigns else pool
+    # which pool get_rand_vars draws from depends on its common_variables argument (handed on to rand_var)
+    grv = mod.functions.get("get_rand_vars")
+    passes_on = grv is not None and any(
+        isinstance(n, ast.Call) and unparse(n.func) == "rand_var" and any(isinstance(x, ast.Name) and x.id == "common_variables"
+                                                                         for a_ in list(n.args) + [k.value for k in n.keywords]
+                                                                         for x in ast.walk(a_))
+        for n in ast.walk(grv.node))
     for f in mod.functions.values():
         iv = None
         for n in ast.walk(f.node):
@@ -171,13 +187,23 @@ def run_pool(chk: Check, prog: Program) -> None:
                     chk.info("C17.R1", key, construct, "request driven by a parameter without default / documented range: "
                              "not decided")
                     continue
-                avail = len(pool) - exc[1]
+                use_pool = pool
+                if passes_on:
+                    cv = next((kw.value for kw in n.keywords if kw.arg == "common_variables"), n.args[2] if len(n.args) > 2 else None)
+                    on = None
+                    if isinstance(cv, ast.Constant):
+                        on = cv.value is True
+                    elif isinstance(cv, ast.Name):
+                        on = iv.flags.get(cv.id)
+                    if on:
+                        use_pool = common_pool
+                avail = len(use_pool) - exc[1]
                 if req[1] <= avail:
-                    chk.ok("C17.R1", key, construct, f"requests {req}, pool {len(pool)} - excluded {exc} = {avail}", f.where)
+                    chk.ok("C17.R1", key, construct, f"requests {req}, pool {len(use_pool)} - excluded {exc} = {avail}", f.where)
                 else:
                     chk.fail("C17.R1", key, construct,
                              f"with its default parameters {f.name} can request {int(req[1])} distinct variables but only "
-                             f"{avail} exist ({len(pool)} letters minus {int(exc[1])} excluded): the request cannot be "
+                             f"{avail} exist ({len(use_pool)} letters minus {int(exc[1])} excluded): the request cannot be "
                              f"fulfilled and get_rand_vars raises ValueError",
                              witness={"requested_range": req, "pool": len(pool), "excluded": exc}, where=f.where)
 
